@@ -49,17 +49,17 @@ func isFieldCall(t *ir.Term, uf *ssa.Function, catP int, idx *ir.Term) bool {
 }
 
 func unfoldRules(c *core.Ctx) {
-	uf, _ := unfoldFunc(c)
-	if uf == nil {
+	ui := unfoldInfoOf(c)
+	if ui == nil {
 		c.Undecided("loop-canonical", "hseq.unfold", 0, "unfolding function not found")
 		return
 	}
+	uf := ui.fn
 	an := c.Analyze(uf)
 	if problems(c, "loop-canonical", "hseq.unfold", an) {
 		return
 	}
-	np := len(uf.Params)
-	catP, seqP := np-3, np-2
+	catP := ui.catP
 	if len(an.Headers) != 1 {
 		c.Undecided("loop-canonical", "hseq.unfold", uf.Pos(), "expected exactly one loop, found %d", len(an.Headers))
 		return
@@ -78,28 +78,62 @@ func unfoldRules(c *core.Ctx) {
 		return
 	}
 	idx := an.Start[h].Reg(l.Phi)
-	// the loop-carried listing
+	// the listing: a loop-carried value threaded through the recursion (functional style, seq = unfold(cat, seq, off))
+	// or a cell of a state object that the unfolding method updates in place (u.seq = append(u.seq, ...))
 	var seqPhi *ssa.Phi
-	for _, in := range h.Instrs {
-		if phi, ok := in.(*ssa.Phi); ok && phi != l.Phi {
-			seqPhi = phi
+	var cell *ir.Term
+	if ui.seqP >= 0 {
+		for _, in := range h.Instrs {
+			if phi, ok := in.(*ssa.Phi); ok && phi != l.Phi {
+				seqPhi = phi
+			}
+		}
+		if seqPhi == nil {
+			c.Undecided("append-once", "hseq.unfold", uf.Pos(), "no loop-carried listing")
+			return
+		}
+	} else {
+		cell = &ir.Term{Op: "faddr", Aux: ui.cellField, Args: []*ir.Term{{Op: "param", Aux: uf.Params[ui.recvP].Name()}}}
+	}
+	storesToCell := func(p *ir.Path) []*ir.Step {
+		var out []*ir.Step
+		for _, st := range p.Events(ir.KStore) {
+			if cell != nil && ir.Same(st.A[0], cell) {
+				out = append(out, st)
+			}
+		}
+		return out
+	}
+	var cur *ir.Term
+	if seqPhi != nil {
+		cur = an.Start[h].Reg(seqPhi)
+	} else {
+		cur = an.Start[h].MemAt(cell)
+		if cur == nil {
+			c.Undecided("append-once", "hseq.unfold", uf.Pos(), "the listing cell has no value at the loop head")
+			return
 		}
 	}
-	if seqPhi == nil {
-		c.Undecided("append-once", "hseq.unfold", uf.Pos(), "no loop-carried listing")
-		return
-	}
-	cur := an.Start[h].Reg(seqPhi)
 	for _, p := range an.Segs[nil] {
 		if p.To == nil {
-			// no field at all: the sequence argument is returned as it is
-			if p.Exit != ir.ExitReturn || len(p.Results) != 1 || !paramOf(p.Results[0], uf, seqP) || len(p.Events(ir.KCall)) > 0 {
+			// no field at all: the listing stays as it is
+			bad := p.Exit != ir.ExitReturn || len(p.Events(ir.KCall)) > 0
+			if seqPhi != nil {
+				bad = bad || len(p.Results) != 1 || !paramOf(p.Results[0], uf, ui.seqP)
+			} else {
+				bad = bad || len(storesToCell(p)) > 0
+			}
+			if bad {
 				c.Fail("append-once", "hseq.unfold", lastPos(p), "a type without fields must leave the listing as it is")
 			}
 			continue
 		}
-		if !paramOf(p.PhiOut[seqPhi], uf, seqP) {
-			c.Fail("append-once", "hseq.unfold", uf.Pos(), "the listing does not start from the sequence argument")
+		if seqPhi != nil {
+			if !paramOf(p.PhiOut[seqPhi], uf, ui.seqP) {
+				c.Fail("append-once", "hseq.unfold", uf.Pos(), "the listing does not start from the sequence argument")
+			}
+		} else if len(storesToCell(p)) > 0 {
+			c.Fail("append-once", "hseq.unfold", uf.Pos(), "the listing is modified before the field loop")
 		}
 	}
 	fieldT := &ir.Term{Op: "pure", Aux: "(reflect.Type).Field", Args: []*ir.Term{{Op: "param", Aux: uf.Params[catP].Name()}, idx}}
@@ -107,23 +141,34 @@ func unfoldRules(c *core.Ctx) {
 	okApp, okID, okDesc, okPure := true, true, true, true
 	nIter := 0
 	for _, p := range an.Segs[h] {
-		next := p.PhiOut[seqPhi]
+		var next *ir.Term
+		if seqPhi != nil {
+			next = p.PhiOut[seqPhi]
+		}
 		if p.To != h {
 			// exit: returns the listing
-			if p.Exit != ir.ExitReturn || len(p.Results) != 1 {
+			if p.Exit != ir.ExitReturn || (seqPhi != nil && len(p.Results) != 1) {
 				okApp = false
 				c.Fail("append-once", "hseq.unfold", lastPos(p), "the loop exit does not return the accumulated listing")
 				continue
 			}
 			if !l.Rotated() {
-				if !ir.Same(p.Results[0], cur) || len(p.Events(ir.KCall)) > 0 {
+				bad := len(p.Events(ir.KCall)) > 0
+				if seqPhi != nil {
+					bad = bad || !ir.Same(p.Results[0], cur)
+				} else {
+					bad = bad || len(storesToCell(p)) > 0
+				}
+				if bad {
 					okApp = false
 					c.Fail("append-once", "hseq.unfold", lastPos(p), "the loop exit does not return the accumulated listing")
 				}
 				continue
 			}
 			// bottom-tested loop: the exit path carries the last iteration, its result is the listing after it
-			next = p.Results[0]
+			if seqPhi != nil {
+				next = p.Results[0]
+			}
 		}
 		nIter++
 		// find the appended literal on this path
@@ -140,24 +185,58 @@ func unfoldRules(c *core.Ctx) {
 			}
 		}
 		var rec *ir.Step
-		nRec := 0
-		for _, st := range p.Events(ir.KCall) {
-			if st.Static == uf {
+		nRec, recIdx := 0, -1
+		for i := range p.Steps {
+			st := &p.Steps[i]
+			if st.Kind == ir.KCall && st.Static == uf {
 				rec = st
+				recIdx = i
 				nRec++
 			}
 		}
-		appended := next
-		if rec != nil {
-			if !ir.Same(next, rec.R) {
-				okApp = false
-				c.Fail("append-once", "hseq.unfold", rec.Pos(), "the result of the recursive descent does not become the listing")
+		var appended *ir.Term
+		if seqPhi != nil {
+			appended = next
+			if rec != nil {
+				if !ir.Same(next, rec.R) {
+					okApp = false
+					c.Fail("append-once", "hseq.unfold", rec.Pos(), "the result of the recursive descent does not become the listing")
+				}
+				appended = rec.A[ui.seqP]
 			}
-			appended = rec.A[len(rec.A)-2]
+		} else {
+			// exactly one in-place update of the listing, before the descent, which runs on the same state object
+			n, at := 0, -1
+			for i := range p.Steps {
+				st := &p.Steps[i]
+				if st.Kind == ir.KStore && ir.Same(st.A[0], cell) {
+					n++
+					at = i
+					appended = st.A[1]
+				}
+			}
+			if n != 1 {
+				appended = nil
+			}
+			if rec != nil {
+				if at > recIdx {
+					okApp = false
+					c.Fail("append-once", "hseq.unfold", rec.Pos(), "the descent runs before the embedded struct's own entry is appended")
+				}
+				if !paramOf(rec.A[ui.recvP], uf, ui.recvP) {
+					okApp = false
+					c.Fail("append-once", "hseq.unfold", rec.Pos(), "the descent does not continue on the same listing")
+				}
+			}
 		}
 		if nLit != 1 || nRec > 1 || appended == nil || appended.Op != "append" || len(appended.Args) != 2 || !ir.Same(appended.Args[0], cur) {
 			okApp = false
-			c.Fail("append-once", "hseq.unfold", lastPos(p), "each field must be appended exactly once to the current listing (and the descent, if any, run on the appended listing); found %d entry literals, %d descents, listing' = %s", nLit, nRec, short(next))
+			c.Fail("append-once", "hseq.unfold", lastPos(p), "each field must be appended exactly once to the current listing (and the descent, if any, run on the appended listing); found %d entry literals, %d descents, listing' = %s", nLit, nRec, short(appended))
+			continue
+		}
+		if x := appendedOne(p, appended.Args[1]); x == nil || !ir.Same(x, lit) {
+			okApp = false
+			c.Fail("append-once", "hseq.unfold", lastPos(p), "what is appended is not exactly the entry built for this field")
 			continue
 		}
 		// the literal's components
@@ -204,9 +283,9 @@ func unfoldRules(c *core.Ctx) {
 			okDesc = false
 			c.Fail("descend-cond", "hseq.unfold", rec.Pos(), "the unfolding descends into a field that is not an embedded struct")
 		case cond > 0:
-			if !ir.Same(rec.A[len(rec.A)-3], stripped) {
+			if !ir.Same(rec.A[catP], stripped) {
 				okDesc = false
-				c.Fail("descend-cond", "hseq.unfold", rec.Pos(), "the descent unfolds %s, expected the embedded field's (pointer-stripped) type", short(rec.A[len(rec.A)-3]))
+				c.Fail("descend-cond", "hseq.unfold", rec.Pos(), "the descent unfolds %s, expected the embedded field's (pointer-stripped) type", short(rec.A[catP]))
 			}
 		}
 	}
@@ -542,7 +621,12 @@ func namesOrderRule(c *core.Ctx) {
 		c.Undecided("names-order", "hseq.New", 0, "anchor not found")
 		return
 	}
-	uf, _ := unfoldFunc(c)
+	ui := unfoldInfoOf(c)
+	if ui == nil {
+		c.Undecided("names-order", "hseq.New", fn.Pos(), "unfolding function not found")
+		return
+	}
+	uf := ui.fn
 	forName := c.W.Func("hseq", "ForName")
 	an := c.AnalyzeLoopsExcept(fn, forName, uf)
 	if problems(c, "names-order", "hseq.New", an) {
@@ -556,11 +640,17 @@ func namesOrderRule(c *core.Ctx) {
 	var callInstr ssa.Value
 	var badIter []*ir.Path
 	var badN []int
+	// the listing: the unfolding function's result, or - when it is a method of a state object - the content of
+	// that object's listing cell after the call
+	var cell *ir.Term
 	for _, p := range an.AllPaths() {
 		for _, st := range p.Events(ir.KCall) {
 			if st.Static == uf {
 				listing = st.R
 				callInstr, _ = st.Instr.(ssa.Value)
+				if ui.recvP >= 0 && ui.recvP < len(st.A) {
+					cell = &ir.Term{Op: "faddr", Aux: ui.cellField, Args: []*ir.Term{st.A[ui.recvP]}}
+				}
 			}
 		}
 	}
@@ -570,13 +660,30 @@ func namesOrderRule(c *core.Ctx) {
 	}
 	for _, p := range an.AllPaths() {
 		listing = nil
-		for _, st := range p.Events(ir.KCall) {
-			if st.Static == uf {
+		for i := range p.Steps {
+			st := &p.Steps[i]
+			if st.Kind == ir.KCall && st.Static == uf {
 				listing = st.R
+				if cell != nil {
+					// the first read of the cell after the call (no store to it may follow)
+					listing = nil
+					if p.End != nil {
+						listing = p.End.MemAt(cell)
+					}
+					for _, s2 := range p.Steps[i+1:] {
+						if s2.Kind == ir.KStore && ir.Same(s2.A[0], cell) {
+							listing = nil
+						}
+					}
+				}
 			}
 		}
 		if listing == nil && p.From != nil {
-			listing = an.Start[p.From].Reg(callInstr)
+			if cell != nil {
+				listing = an.Start[p.From].MemAt(cell)
+			} else {
+				listing = an.Start[p.From].Reg(callInstr)
+			}
 		}
 		if listing == nil {
 			ok = false
